@@ -260,7 +260,10 @@ def jobs(tier):
             for scheme in ('subtract', 'bottleneck'):
                 add('n=4,%s,%s' % (tag, scheme), n=4, edges=pat, sources=[0], sinks=[3], scheme=scheme)
             sink_only = all(i != 3 for i, j in pat)
-            if sink_only and pat:
+            # a strictly positive conserved flow exists on a DAG pattern iff every intermediate state that is entered is
+            # also left and vice versa (otherwise the job's precondition is unsatisfiable and the job would be vacuous)
+            balanced = all(any(j == v for i, j in pat) == any(i == v for i, j in pat) for v in (1, 2))
+            if sink_only and pat and balanced:
                 add('n=4,%s,conserved' % tag, n=4, edges=pat, sources=[0], sinks=[3], scheme='subtract', conserved=True)
                 add('n=4,%s,conserved,bottleneck' % tag, n=4, edges=pat, sources=[0], sinks=[3], scheme='bottleneck',
                     conserved=True)
